@@ -1135,6 +1135,7 @@ def _pure_div(a, b):
         q = z3.Real(ctx.name('quot'))
         ctx.add(q * zb == za)
         ctx.memo[key] = q
+        ctx.memo[('quot-of', q.get_id())] = (za, zb)
     return q
 
 
@@ -1285,6 +1286,13 @@ def _log_term(v):
                 one = z3.RealVal(1)
                 ctx.add(z3.Implies(zv > 0, z3.And(t <= zv - 1, t * zv >= zv - 1, (zv == one) == (t == 0),
                                                   z3.Implies(zv != one, z3.And(t < zv - 1, t * zv > zv - 1)))))
+                nd = ctx.memo.get(('quot-of', zv.get_id()))
+                if nd is not None:
+                    # the same two bounds for a purified quotient zv = num/den, cleared of the quotient (multiply by den resp.
+                    # num): den*t <= num - den and num*t >= num - den.  Consequences of the lines above; stated because
+                    # nlsat does not find the multiplication by itself
+                    num, den = nd
+                    ctx.add(z3.Implies(z3.And(num > 0, den > 0), z3.And(den * t <= num - den, num * t >= num - den)))
         return t
     if active() and ('log-axioms' not in cur().memo):
         cur().memo['log-axioms'] = True
